@@ -75,3 +75,5 @@ def dependent_required(*groups: Collection[Any], owner: Optional[type] = None): 
             for i, field in enumerate(group):
                 check_field_or_name(field)
                 dep_req.append((field, [group[:i], group[i:]]))
+        # assignment so that the caches are reset
+        _dependent_requireds[owner] = dep_req
